@@ -42,7 +42,63 @@ fn first_diff(a: &(Vec<u32>, Vec<u32>), b: &(Vec<u32>, Vec<u32>), w: u32) -> Opt
     None
 }
 
+/// `huge <seed> <n>`: a scene of `n` (> 65 536) triangles built from the seed — all but the last 200 are
+/// sub-pixel triangles that cover no pixel centre, the last 200 are visible ones at distinct depths — rendered
+/// in ONE call under each depth_sort setting with the z-buffer on. Output: `<3> <ndiffer> <x> <y>` (first
+/// differing pixel between sort=n and the others). Implementation against itself only: the model is not run.
+fn run_huge(seed: u64, n: usize) -> String {
+    let mut rng = Rng::new(seed);
+    let (w, h) = (32u32, 32u32);
+    let mut line = format!(
+        "scene door=r tgt=fb dims={w}x{h} vp=0,0,{w},{h} cull=n sort=n test=l cw=1 dw=1 sh=0 proj=none zinit={} k=1 sel=0",
+        h32(0.0)
+    );
+    let mut verts: Vec<Vec<f32>> = Vec::with_capacity(3 * n);
+    for i in 0..n {
+        if i + 200 < n {
+            // inside one pixel cell, away from its centre: no fragment
+            let (px, py) = (rng.below(w as u64) as f32, rng.below(h as u64) as f32);
+            let (ox, oy) = (rng.f32_in(0.05, 0.25), rng.f32_in(0.05, 0.25));
+            for (dx, dy) in [(0.0f32, 0.0f32), (0.1, 0.0), (0.0, 0.1)] {
+                let (sx, sy) = (px + ox + dx, py + oy + dy);
+                verts.push(vec![sx / w as f32 * 2.0 - 1.0, sy / h as f32 * 2.0 - 1.0, 0.5, 1.0, 1.0]);
+            }
+        } else {
+            let wc = 1.0 + 0.01 * (i + 200 - n) as f32;
+            let (cx, cy) = (rng.f32_in(-0.8, 0.8), rng.f32_in(-0.8, 0.8));
+            for _ in 0..3 {
+                let (nx, ny) = (cx + rng.f32_in(-0.4, 0.4), cy + rng.f32_in(-0.4, 0.4));
+                verts.push(vec![nx * wc, ny * wc, 0.9 * wc - 1.0, wc, (i % 97) as f32]);
+            }
+        }
+    }
+    push_verts(&mut line, &verts);
+    line += &format!(" t {n}");
+    for j in 0..n {
+        line += &format!(" {} {} {}", 3 * j, 3 * j + 1, 3 * j + 2);
+    }
+    let toks: Vec<&str> = line.split(' ').collect();
+    let s = parse_scene(&toks);
+    let base = bits(&run_scene(&s, s.door));
+    let mut nd = 0;
+    let mut first = (-1i64, -1i64);
+    for sort in ['f', 'b'] {
+        let mut s2 = s.clone();
+        s2.hist = vec![(sort, (0..n).collect())];
+        if let Some((x, y)) = first_diff(&base, &bits(&run_scene(&s2, s.door)), s.w) {
+            nd += 1;
+            if first.0 < 0 {
+                first = (x as i64, y as i64);
+            }
+        }
+    }
+    format!("3 {nd} {} {}", first.0, first.1)
+}
+
 pub fn run(t: &[&str]) -> String {
+    if t[0] == "huge" {
+        return run_huge(t[1].parse().unwrap(), t[2].parse().unwrap());
+    }
     // the token "painter=1" (not a scene key) asks for the painter comparison
     let painter = t.iter().any(|x| *x == "painter=1");
     // "painter=2": a painter-configured scene (depth test off, back-to-front sort) whose depth buffer is
@@ -251,6 +307,11 @@ pub fn gen(rng: &mut Rng, tier: Tier, out: &mut Vec<String>) {
             line += &format!(" {} {} {}", 3 * j, 3 * j + 1, 3 * j + 2);
         }
         out.push(line);
+    }
+    // one scene with more than 65 536 triangles in a single call (two in the thorough tier): index or
+    // counter types narrower than the primitive count show only here (implementation against itself)
+    for _ in 0..(if tier == Tier::Quick { 1 } else { 2 }) {
+        out.push(format!("huge {} {}", rng.below(1 << 30), 65_536 + 200 + rng.below(600)));
     }
     // crowded painter scenes: 65..110 small triangles, each in its own thin depth slab, submitted
     // NEAREST FIRST in one call (anything that sorts or batches only part of the list shows here)
